@@ -301,4 +301,6 @@ package rag
 //@   callsite GenerateOverlap(t) requires sameseq(t, old(chunks)[i-1].Text)
 //@   ensures one_result_per_chunk: len(res) == len(chunks)
 //@   loop 0:
-//@     invariant len(result) == len(chunks) && len(chunks) == len(old(chunks))
+//@     invariant len(ownText) == len(chunks) && len(result) == len(chunks) && forall k int :: {ownText[k]} 0 <= k && k < $i ==> sameseq(ownText[k], old(chunks)[k].Text)
+//@   loop 1:
+//@     invariant len(ownText) == len(old(chunks)) && len(result) == len(chunks) && len(chunks) == len(old(chunks)) && forall k int :: {ownText[k]} 0 <= k && k < len(ownText) ==> sameseq(ownText[k], old(chunks)[k].Text)
